@@ -9,6 +9,7 @@ CONSTANTS
   MaxDup = 1
   MaxDisp = 1
   MaxSwap = 1
+  MaxPerturb = 2
   MaxCuts = 1
   MinCuts = 0
   MaxAck = 0
